@@ -61,10 +61,10 @@ void GMGPolar::setup()
     // ----------------------------------------------------------- //
     threads_per_level_.resize(number_of_levels_, max_omp_threads_);
     for (int level_depth = 0; level_depth < number_of_levels_; level_depth++) {
-        threads_per_level_[level_depth] = std::max(
-            1,
-            std::min(max_omp_threads_,
-                     static_cast<int>(std::floor(max_omp_threads_ * std::pow(thread_reduction_factor_, level_depth)))));
+        /* Clamp before converting: the scaled value need not be representable as an int. */
+        const double scaled_threads = std::floor(max_omp_threads_ * std::pow(thread_reduction_factor_, level_depth));
+        threads_per_level_[level_depth] =
+            static_cast<int>(std::max(1.0, std::min(static_cast<double>(max_omp_threads_), scaled_threads)));
     }
 
     if (verbose_ > 0)
